@@ -41,7 +41,7 @@ func runC19(a *Args) error {
 	prelude := "From NV Require Import Base C19_Model.\nOpen Scope N_scope.\n"
 	w := NewCaseWriter(a, "C19", prelude, "case", "run")
 	w.ShardSize = 400
-	w.Rule = "one case = one history on a fresh OCI layout (oci.Store in a temp dir, Repository from registry.NewRepository over a Fetch-logging wrapper of that store; the layout is re-opened with registry.NewOCIRepository at the end): up to 12 PushSignature calls over up to 3 subject artifacts and their one-field variants (size+1, other media type, other digest), envelopes of both media types (distinct random content, 0 B .. 1 MiB; some re-pushed), caller annotations (none, thumbprint, user keys, valid / invalid created), interleaved with foreign referrers pushed through oras (other artifact types, artifactType field vs config type, legacy artifact manifests with and without subject, indexes and docker manifests with subject, manifests reaching the subject only through a layer, the config or (legacy) the blobs while naming a subject that differs in one field or none), hostile signature manifests (0 / 2 layers, declared blob sizes above the cap, negative or off by one, missing blobs, a manifest really above 4 MiB, a blob really above 32 MiB, JSON of the wrong shape, manifest JSON stored under a non-manifest media type), listings of every subject and variant and fetches of every listed manifest plus tampered descriptors (size +1, -1, above the cap, media type swapped, unknown digest, an envelope or the subject as manifest). The first 212 histories of every run are scripted, systematic families (scripted.go): relist (one long-lived Repository; the same listing / fetch asked again while the expected answer changes: empty -> 1 -> 2 items, pass -> refused -> pass for one digest under tampered descriptors, a subject and its one-field variants including size 0 and empty media type), position (three signatures and ONE odd content of every foreign / hostile kind before, between and after them; the valid blob at every position of 2- and 3-layer manifests), empties (annotations nil / {} / empty value / empty key, empty envelope, empty media type, manifest members absent / null / {} / [], zero descriptors as query, subject and fetch target), syntax (duplicate JSON members, keys in another letter case, numbers as strings / floats / exponents, non-string annotation values, white space, null / array / string documents, trailing garbage, media and artifact types differing in case, surrounding space or parameters, upper-case digests), many (twelve signatures of one subject). non-trivial = at least two successful pushes, at least one foreign or hostile content and a non-empty listing; distinct = distinct operation sequences after interning"
+	w.Rule = "one case = one history on a fresh OCI layout (oci.Store in a temp dir, Repository from registry.NewRepository over a Fetch-logging wrapper of that store; the layout is re-opened with registry.NewOCIRepository at the end): up to 12 PushSignature calls over up to 3 subject artifacts and their one-field variants (size+1, other media type, other digest), envelopes of both media types (distinct random content, 0 B .. 1 MiB; some re-pushed), caller annotations (none, thumbprint, user keys, valid / invalid created), interleaved with foreign referrers pushed through oras (other artifact types, artifactType field vs config type, legacy artifact manifests with and without subject, indexes and docker manifests with subject, manifests reaching the subject only through a layer, the config or (legacy) the blobs while naming a subject that differs in one field or none), hostile signature manifests (0 / 2 layers, declared blob sizes above the cap, negative or off by one, missing blobs, a manifest really above 4 MiB, a blob really above 32 MiB, JSON of the wrong shape, manifest JSON stored under a non-manifest media type), listings of every subject and variant and fetches of every listed manifest plus tampered descriptors (size +1, -1, above the cap, media type swapped, unknown digest, an envelope or the subject as manifest). The first 224 histories of every run are scripted, systematic families (scripted.go, squat.go): relist (one long-lived Repository; the same listing / fetch asked again while the expected answer changes: empty -> 1 -> 2 items, pass -> refused -> pass for one digest under tampered descriptors, a subject and its one-field variants including size 0 and empty media type), position (three signatures and ONE odd content of every foreign / hostile kind before, between and after them; the valid blob at every position of 2- and 3-layer manifests), empties (annotations nil / {} / empty value / empty key, empty envelope, empty media type, manifest members absent / null / {} / [], zero descriptors as query, subject and fetch target), syntax (duplicate JSON members, keys in another letter case, numbers as strings / floats / exponents, non-string annotation values, white space, null / array / string documents, trailing garbage, media and artifact types differing in case, surrounding space or parameters, upper-case digests), many (twelve signatures of one subject), squat (the bytes of the manifest a PushSignature is going to make - predicted by the same call on a twin layout, with a caller-supplied creation time - or of its envelope, or of the empty config, are in the layout before the call, stored through oras under a blob media type, the legacy manifest type or the image manifest type: the manifest push meets ErrAlreadyExists, which PackManifest ignores; histogram content_kinds squat:push-reported-success-manifest-not-listed counts the histories in which the real PushSignature reported success and ListSignatures of its subject does not contain its manifest - theorem C19_pushed_but_not_listed_refuted). non-trivial = at least two successful pushes, at least one foreign or hostile content and a non-empty listing; distinct = distinct operation sequences after interning"
 	w.Assumptions = []string{
 		"sha256 is injective on the contents of a history (digest numbers stand for byte strings; fetched bytes are identified by their sha256)",
 		"the artifact manifest struct of registry/internal/artifactspec is mirrored field by field in the harness (same JSON tags) to ask encoding/json how a content reads as an artifact manifest",
@@ -49,6 +49,7 @@ func runC19(a *Args) error {
 		"error classes are recognised by errors.Is / errors.As and by the fixed message prefixes of registry/repository.go",
 		"no deletion and no concurrent writer during a sequential history; the concurrency family (conc.go) shares one Repository between 8 goroutines signing, listing and fetching DIFFERENT subjects, in a child process",
 		"frame check on every call of every history: the annotations map, envelope bytes and subject descriptor handed to PushSignature and the descriptors handed to ListSignatures / FetchSignatureBlob (with their Annotations maps, URLs, Platform) are deep-snapshotted before and compared after the call; in every second history the same map / descriptor objects are handed to consecutive calls; the descriptors and bytes the library hands out are scribbled over by the caller after each listing / fetch",
+		"extra Go-side check of the delivery of listings (not in the model): after one listing in three of every sweep the same listing is asked again with a callback that returns an error; on success the callback must be invoked exactly once with the manifests of the listing just before and ListSignatures must return the callback's error (errors.Is), on failure the callback must not be invoked",
 		"extra Go-side check, outside registry/repository.go: the layout is re-opened with registry.NewOCIRepository and every listing compared with the live one; oras-go's oci.New refuses to re-open a layout in which a stored manifest is referenced (as a subject) with another size, or a manifest-typed reference carries an invalid digest string (histogram reopen: layout-not-reopenable): counted and reported, not judged a violation of C19",
 	}
 	n := 1200
